@@ -625,14 +625,16 @@ def part_accepted_compiles(chk, thorough):
                 ("AsRef", "#[as_ref(Vec<$tp>)] struct S<T>(Vec<$tp>); #[allow(dead_code)] fn _use(s: &S<u8>) -> &Vec<u8> { s.as_ref() }"),
                 ("AsRef", "struct S<T>(#[as_ref($tp)] T); #[allow(dead_code)] fn _use(s: &S<u8>) -> &u8 { s.as_ref() }"),
                 ("From", "#[from($tp)] struct S<T>($tp); #[allow(dead_code)] fn _use() -> S<u8> { S::from(1u8) }"),
+                # type and pattern fragments inside format arguments (they also read as expressions; parentheses around them are linted)
+                ("Display", "#[display(\"{} {}\", ::core::mem::size_of::<$r>(), matches!(1u8, $pt))] struct S;"), ("Debug", "#[debug(\"{}\", ::core::mem::size_of::<$r>())] enum S { #[debug(\"{}\", matches!(2u8, $pt))] A, B }"),
                 ("Display", "#[display(\"{} {}\", $e, 2 * $e)] struct S;"), ("Debug", "#[debug(\"{} {a}\", $e, a = -$e)] struct S;"), ("Display", "enum S { #[display(\"{}\", $e)] A, #[display(\"{}\", 7 - $e)] B }"),
                 ("TryFrom", "#[try_from(repr)] #[repr(u8)] enum S { A = $e, B = 2 * $e }"), ("TryFrom", "#[try_from(repr)] enum S { A = $e, B, Cc = 7 - $e }"), ("From", "struct S([u8; $e]);"),
                 ] + [(d, it) for it in ("struct S([u8; 2 * $e]);", "struct S { a: [u8; 7 - $e], b: u8 }", "enum S { A([u8; 2 * $e]), B }", "struct S(H<(), { 2 * $e }>);")
                      for d in ("From", "Into", "AsRef", "Deref", "DerefMut", "Constructor", "Debug", "TryInto", "Unwrap", "IsVariant", "Index", "IntoIterator")]
     def macro_twin(cid, d, prefix, item):
         body = "%s#[derive(derive_more::%s)] %s" % (prefix, d, item)
-        pars = "$t1:ty, $t2:ty, $t3:ty, $e:expr, $d1:ty, $d:ty, $tp:ty, $dl:ty"
-        args = "%s, %s, (%s, %s), 1 + 1, dyn ::core::fmt::Debug, dyn ::core::fmt::Debug + Send, T, dyn ::core::fmt::Debug + 'static" % (_C1, _C2, _C1, _C2)
+        pars = "$t1:ty, $t2:ty, $t3:ty, $e:expr, $d1:ty, $d:ty, $tp:ty, $dl:ty, $r:ty, $pt:pat"
+        args = "%s, %s, (%s, %s), 1 + 1, dyn ::core::fmt::Debug, dyn ::core::fmt::Debug + Send, T, dyn ::core::fmt::Debug + 'static, &'static u8, 1 | 2" % (_C1, _C2, _C1, _C2)
         mod = "#[allow(unused_imports)] use super::*;\nmacro_rules! mk { (%s) => { %s } }\nmk!(%s);" % (pars, body, args)
         return Case(cid, mod, has_run=False, meta=dict(derive=d, src="macro_rules! mk { (%s) => { %s } } mk!(%s);" % (pars, body, args)))
     for c in cases:
@@ -641,7 +643,7 @@ def part_accepted_compiles(chk, thorough):
             mcases.append(macro_twin("m%d" % len(mcases), c.meta["derive"], PREREQ.get(c.meta["derive"], ""), item))
     # the hand-placed ones: their directly written twin (fragments substituted as text, an expression in parentheses) is compiled
     # along; only where THAT compiles is the macro-generated one judged
-    subst = [("$t1", _C1), ("$t2", _C2), ("$t3", "(%s, %s)" % (_C1, _C2)), ("$e", "(1 + 1)"), ("$d1", "dyn ::core::fmt::Debug"), ("$dl", "dyn ::core::fmt::Debug + 'static"), ("$d", "dyn ::core::fmt::Debug + Send"), ("$tp", "T")]
+    subst = [("$t1", _C1), ("$t2", _C2), ("$t3", "(%s, %s)" % (_C1, _C2)), ("$e", "(1 + 1)"), ("$d1", "dyn ::core::fmt::Debug"), ("$dl", "dyn ::core::fmt::Debug + 'static"), ("$d", "dyn ::core::fmt::Debug + Send"), ("$tp", "T"), ("$r", "&'static u8"), ("$pt", "1 | 2")]
     direct = {}
     for d, item in specials:
         m = macro_twin("m%d" % len(mcases), d, PREREQ.get(d, ""), item)
